@@ -284,6 +284,20 @@ Theorem C09_level_isolation : forall c pre F tok n f,
 Proof. exact level_step. Qed.
 Print Assumptions C09_level_isolation.
 
+(** level isolation on the entries: a successful level `pre ++ tok :: rest` ends in the state its own
+    prefix produces — the loop on [pre] ALONE, then [fill] = [resolve_pending], [add_env], [add_defaults]
+    against [c] — with the subcommand record set ([ssub]): nothing of [tok :: rest] or of the child
+    enters the entries, the pending buffer or the counters of the level *)
+Theorem C09_level_entries : forall c pre F tok n f rest st,
+  prefix_ok c pre F -> sel c tok n -> lvl_ok c ->
+  get_matches_with (S f) c (pre ++ tok :: rest) ps_new = ROk st ->
+  exists st' stf,
+    parse_loop c pre (lsV 1 false) ps_new = ROk (LDone st') /\
+    fill c st' = ROk stf /\
+    st = ssub (mt_sub (mt st)) stf.
+Proof. exact level_entries. Qed.
+Print Assumptions C09_level_entries.
+
 (** the chain theorem, trees and lines of ANY depth.  [line c toks names ext]: [toks] is
     `pre_0 n_1 pre_1 … n_k pre_k`, every [pre_i] an option prefix of the level reached, every [n_i]
     selecting a child of that level (levels do not ignore errors, arguments do not negate
